@@ -514,16 +514,25 @@ def faithful(prefix, lp, c, f, tr, gt, sampled):
                 for kname, _ in problems:
                     cause_of[kname] = "sampled_midlife_start"
                 break
-    if sampled and f["body"] == "agen" and (c.yields or c.awaits):
+    if sampled and f["body"] == "agen":
         # trace started at a later resumption of the async generator (F5): arguments as they were while it was suspended
-        pts = sorted([i for i, _ in c.yields] + list(c.await_idx))
-        for k_p, lo in enumerate(pts):
-            hi = pts[k_p + 1] if k_p + 1 < len(pts) else c.end_idx
-            if any({n: T.tnorm(gt(vals[n])) for n in names} == got_args for vals in states_while_suspended(c, lo, hi)) and got_ret == exp_ret:
-                for kname, _ in problems:
-                    if kname != "yield-cover":
-                        cause_of.setdefault(kname, "sampled_midlife_start")
+        # (a suspension inside an awaited callee leaves no record of this activation: any prefix of its re-bindings, at any
+        # moment of its lifetime, is a candidate for what a trace started at a resumption saw)
+        hit = False
+        for p in range(0, len(c.rebinds) + 1):
+            vals0 = dict(c.params)
+            for _, pn, v in c.rebinds[:p]:
+                vals0[pn] = v
+            for vals in [vals0] + list(states_while_suspended(c, c.cid, c.end_idx, rebind_prefix=p)):
+                if {n: T.tnorm(gt(vals[n])) for n in names} == got_args and got_ret == exp_ret:
+                    hit = True
+                    break
+            if hit:
                 break
+        if hit:
+            for kname, _ in problems:
+                if kname != "yield-cover":
+                    cause_of.setdefault(kname, "sampled_midlife_start")
     if sampled and f["body"] == "coro":
         # F5 for coroutines: trace started at a later resumption; arguments as after some prefix of
         # the re-bindings, yield type at most the suspension token (F2)
